@@ -108,6 +108,11 @@ def gen(seed, tier):
             n, a = rng.choice([['p', 2], ['h1', 2], ['h2', 1], ['s', 2], ['q', 1], ['t', 3], ['u', 1], ['d', 2], ['d', 1], ['d', 2]])
             # arguments: the task's own fresh variables, or ground terms (tasks never share variables)
             tasks.append([n, a, [(['v', j] if rng.random() < 0.6 else rng.choice([['a', 'a'], ['a', 'b'], ['a', 'c'], ['i', 1], ['i', 2]])) for j in range(a)]])
+        if rng.random() < 0.5:
+            # several overlapping activations of the same compiled clauses (their `_` and local variables must be
+            # fresh per activation): the first two tasks call the program's top predicate with their own variables
+            tasks[0] = ['p', 2, [['v', 0], ['v', 1]]]
+            tasks[1] = ['p', 2, [['v', 0], ['v', 1]]] if rng.random() < 0.7 else ['h1', 2, [['v', 0], ['v', 1]]]
         if rng.random() < 0.4:
             # same-fact focus: several tasks use one non-ground fact with different ground arguments
             dyn = [['d', [['v', 0], ['v', 0]]]] + dyn[:1]
